@@ -1103,6 +1103,11 @@ def check_C04(chk, binp):
     for f in [F8, G.START] + rnd.sample(sel, 6 if quick else 60) + dead[:4]:
         for mode in rnd.sample(['plain', 'drop', 'twice', 'depth3-nostop', 'depth3', 'drop-twice'], 2 if quick else 4):
             st.append('stoptest\t%d\t%d\t%s\t%s' % (rnd.randrange(1 << 30), rnd.choice([0, 1, 20, 150, 400]), mode, f))
+    # searches that end BY THEMSELVES without a depth limit (terminal root; forced mate found): the handle must come back
+    # although nobody sends Stop
+    SELF_ENDING = ['k7/8/1K6/8/8/8/8/7R w - - 0 1', '6k1/5ppp/8/8/8/8/8/3RK3 w - - 0 1', '8/8/8/8/8/k2r4/8/K7 b - - 4 3']
+    for f in dead[:4] + SELF_ENDING:
+        st.append('stoptest\t%d\t%d\t%s\t%s' % (rnd.randrange(1 << 30), 0, rnd.choice(['nostop', 'drop-nostop']), f))
     sres = run_cases(binp, st, 'C04-stop', shards=4, timeout=900)
     lat = []
     sbad = []
@@ -1113,7 +1118,7 @@ def check_C04(chk, binp):
             ms = int(r.split(' ')[1]); lat.append(ms)
             if ms > 15000 and 'nostop' not in c:
                 sbad.append((c, r))
-    chk.streams.append({'name': 'Stop via the public entry point at seeded instants (receiver kept/dropped, repeated, after completion): thread joins', 'against': 'the property (15 s ceiling, only to catch hangs)', 'cases': len(st), 'disagreements': len(sbad)})
+    chk.streams.append({'name': 'Stop via the public entry point at seeded instants (receiver kept/dropped, repeated, after completion; no Stop at all for searches that end by themselves): thread joins', 'against': 'the property (15 s ceiling, only to catch hangs)', 'cases': len(st), 'disagreements': len(sbad)})
     chk.evaluations += len(st)
     chk.extra['join_latency_ms'] = {'max': max(lat) if lat else None, 'median': sorted(lat)[len(lat) // 2] if lat else None}
     for c in cases + st:
